@@ -1102,7 +1102,33 @@ func ruleWriteToFlushFirst(r *Run, rule string, kinds []*serKind) {
 		})
 		r.Check(flush != nil, rule, k.Name+":flush", site, "WriteTo flushes soft deletes first", "WriteTo does not call Flush: soft-deleted documents are serialised")
 		if flush != nil && rlock != nil {
-			r.Check(domInstr(flush, rlock), rule, k.Name+":flush-before-lock", site, "Flush precedes the read lock", "Flush is called while the index lock is held (re-entrant acquisition deadlocks)")
+			// holding the lock across the Flush is a problem only when that Flush takes the same mutex itself
+			flushFn := staticCallee(flush.(*ssa.Call).Common())
+			reacquires := false
+			seenF := map[*ssa.Function]bool{}
+			var visit func(g *ssa.Function, depth int)
+			visit = func(g *ssa.Function, depth int) {
+				if g == nil || seenF[g] || depth > 3 {
+					return
+				}
+				seenF[g] = true
+				cg := NewCanon(w)
+				allInstrs(g, func(in ssa.Instruction) {
+					call, ok := in.(ssa.CallInstruction)
+					if !ok {
+						return
+					}
+					n := calleeName(call.Common())
+					if (n == "(*sync.RWMutex).RLock" || n == "(*sync.RWMutex).Lock") && cg.S(call.Common().Args[0]) == "P0.mu" {
+						reacquires = true
+					}
+					if h := staticCallee(call.Common()); h != nil && h.Pkg == w.SPkg && len(call.Common().Args) > 0 && cg.S(call.Common().Args[0]) == "P0" {
+						visit(h, depth+1)
+					}
+				})
+			}
+			visit(flushFn, 0)
+			r.Check(domInstr(flush, rlock) || !reacquires, rule, k.Name+":flush-before-lock", site, "Flush precedes the read lock (or does not take this index's own mutex)", "Flush is called while the index lock is held (re-entrant acquisition deadlocks)")
 		}
 		// flush error checked
 		if flush != nil {
